@@ -580,4 +580,179 @@ theorem descs_ok {img : Img} {arr : Ref} (h : RefOK img arr) (hal : arr.align = 
   simp only [descSize, descAlign] at *
   omega
 
+/-! ### uniqueness of the layouts -/
+
+theorem IsImportDir.unique {b : Bytes} {off len n m : Nat} (h1 : IsImportDir b off len n)
+    (h2 : IsImportDir b off len m) : n = m := by
+  by_cases hlt : n < m
+  · exact absurd h1.term (h2.live n hlt)
+  · by_cases hgt : m < n
+    · exact absurd h2.term (h1.live m hgt)
+    · omega
+
+theorem IsThunkTable.unique {b : Bytes} {off len sz n m : Nat} (h1 : IsThunkTable b off len sz n)
+    (h2 : IsThunkTable b off len sz m) : n = m := by
+  by_cases hlt : n < m
+  · exact absurd h1.term (h2.live n hlt)
+  · by_cases hgt : m < n
+    · exact absurd h2.term (h1.live m hgt)
+    · omega
+
+/-! ### outcome classes of the executable specification -/
+
+theorem specDescCount_okOrErr (b : Bytes) (off len : Nat) : OkOrErr (specDescCount b off len) := by
+  unfold specDescCount; split
+  · exact .inl ⟨_, rfl⟩
+  · exact .inr ⟨_, rfl⟩
+
+theorem specThunkCount_okOrErr (b : Bytes) (off len sz : Nat) : OkOrErr (specThunkCount b off len sz) := by
+  unfold specThunkCount; split
+  · exact .inl ⟨_, rfl⟩
+  · exact .inr ⟨_, rfl⟩
+
+theorem specTryFrom_okOrErr (v : View) : OkOrErr (specTryFrom v) := by
+  unfold specTryFrom
+  split
+  · exact .inr ⟨_, rfl⟩
+  · rename_i rva sz _
+    obtain ⟨w, h⟩ | ⟨e, h⟩ := at_rva_okOrErr v rva 0 4 (by decide)
+    · rw [h]; dsimp only
+      obtain ⟨n, hn⟩ | ⟨e, hn⟩ := specDescCount_okOrErr v.b w.off w.len
+      · rw [hn]; exact .inl ⟨_, rfl⟩
+      · rw [hn]; exact .inr ⟨_, rfl⟩
+    · rw [h]; exact .inr ⟨_, rfl⟩
+
+theorem specThunks_okOrErr (v : View) (rva : Nat) : OkOrErr (specThunks v rva) := by
+  unfold specThunks
+  obtain ⟨w, h⟩ | ⟨e, h⟩ := at_rva_okOrErr v rva 0 (vaSize v.fmt) (vaSize_pow2 _)
+  · rw [h]; dsimp only
+    obtain ⟨n, hn⟩ | ⟨e, hn⟩ := specThunkCount_okOrErr v.b w.off w.len (vaSize v.fmt)
+    · rw [hn]; exact .inl ⟨_, rfl⟩
+    · rw [hn]; exact .inr ⟨_, rfl⟩
+  · rw [h]; exact .inr ⟨_, rfl⟩
+
+theorem specCStr_okOrErr (v : View) (rva : Nat) : OkOrErr (specCStr v rva) := by
+  unfold specCStr
+  obtain ⟨w, h⟩ | ⟨e, h⟩ := at_rva_okOrErr v rva 0 1 (by decide)
+  · rw [h]; dsimp only; split
+    · exact .inl ⟨_, rfl⟩
+    · exact .inr ⟨_, rfl⟩
+  · rw [h]; exact .inr ⟨_, rfl⟩
+
+theorem specImport_okOrErr (v : View) (va : Nat) : OkOrErr (specImport v va) := by
+  unfold specImport
+  split
+  · exact .inl ⟨_, rfl⟩
+  · rename_i rva _
+    obtain ⟨w, h⟩ | ⟨e, h⟩ := at_rva_okOrErr v rva 2 2 (by decide)
+    · rw [h]; dsimp only
+      obtain ⟨n, hn⟩ | ⟨e, hn⟩ := specCStr_okOrErr v (rva + 2)
+      · rw [hn]; exact .inl ⟨_, rfl⟩
+      · rw [hn]; exact .inr ⟨_, rfl⟩
+    · rw [h]; exact .inr ⟨_, rfl⟩
+
+theorem specIat_okOrErr (v : View) : OkOrErr (specIat v) := by
+  unfold specIat
+  split
+  · exact .inr ⟨_, rfl⟩
+  · rename_i rva size _
+    dsimp only
+    obtain ⟨w, h⟩ | ⟨e, h⟩ := at_rva_okOrErr v rva (size / vaSize v.fmt * vaSize v.fmt) (vaSize v.fmt) (vaSize_pow2 _)
+    · rw [h]; exact .inl ⟨_, rfl⟩
+    · rw [h]; exact .inr ⟨_, rfl⟩
+
+/-! ### what a successful answer looks like (for the C01 obligations) -/
+
+theorem specTryFrom_ok {v : View} {image : Ref} (h : specTryFrom v = .ok image) :
+    ∃ rva sz w n, v.dataDir dirImport = some (rva, sz) ∧ v.at (.rva rva) 0 4 = .ok w ∧
+      IsImportDir v.b w.off w.len n ∧ image = ⟨w.off, n * 20, 4⟩ := by
+  unfold specTryFrom at h
+  split at h
+  · cases h
+  · rename_i rva sz hd
+    cases hat : v.at (.rva rva) 0 4 with
+    | ok w =>
+      rw [hat] at h; dsimp only at h
+      cases hc : specDescCount v.b w.off w.len with
+      | ok n =>
+        rw [hc] at h; cases h
+        exact ⟨rva, sz, w, n, hd, hat, (specDescCount_ok_iff ..).1 hc, rfl⟩
+      | _ => rw [hc] at h; cases h
+    | _ => rw [hat] at h; cases h
+
+theorem specThunks_ok {v : View} {rva : Nat} {s : Ref} (h : specThunks v rva = .ok s) :
+    ∃ w n, v.at (.rva rva) 0 (vaSize v.fmt) = .ok w ∧ IsThunkTable v.b w.off w.len (vaSize v.fmt) n ∧
+      s = ⟨w.off, n * vaSize v.fmt, vaSize v.fmt⟩ := by
+  unfold specThunks at h
+  cases hat : v.at (.rva rva) 0 (vaSize v.fmt) with
+  | ok w =>
+    rw [hat] at h; dsimp only at h
+    cases hc : specThunkCount v.b w.off w.len (vaSize v.fmt) with
+    | ok n =>
+      rw [hc] at h; cases h
+      exact ⟨w, n, rfl, (specThunkCount_ok_iff _ _ _ _ _ (vaSize_pos _)).1 hc, rfl⟩
+    | _ => rw [hc] at h; cases h
+  | _ => rw [hat] at h; cases h
+
+theorem specCStr_ok {v : View} {rva : Nat} {c : Ref} (h : specCStr v rva = .ok c) :
+    ∃ w n, v.at (.rva rva) 0 1 = .ok w ∧ IsCStr v.b w.off w.len n ∧ c = ⟨w.off, n + 1, 1⟩ := by
+  unfold specCStr at h
+  cases hat : v.at (.rva rva) 0 1 with
+  | ok w =>
+    rw [hat] at h; dsimp only at h
+    cases hf : firstIdx w.len (fun i => byteAt v.b (w.off + i) == 0) with
+    | some n =>
+      rw [hf] at h; cases h
+      exact ⟨w, n, rfl, (firstNul_some_iff ..).1 hf, rfl⟩
+    | none => rw [hf] at h; cases h
+  | _ => rw [hat] at h; cases h
+
+theorem specIat_ok {v : View} {image : Ref} (h : specIat v = .ok image) :
+    ∃ rva size w, v.dataDir dirIAT = some (rva, size) ∧
+      v.at (.rva rva) (size / vaSize v.fmt * vaSize v.fmt) (vaSize v.fmt) = .ok w ∧
+      image = ⟨w.off, size / vaSize v.fmt * vaSize v.fmt, vaSize v.fmt⟩ := by
+  unfold specIat at h
+  split at h
+  · cases h
+  · rename_i rva size hd
+    dsimp only at h
+    cases hat : v.at (.rva rva) (size / vaSize v.fmt * vaSize v.fmt) (vaSize v.fmt) with
+    | ok w => rw [hat] at h; cases h; exact ⟨rva, size, w, hd, hat, rfl⟩
+    | _ => rw [hat] at h; cases h
+
+theorem cstr_refok {v : View} {rva : Nat} {c : Ref} (h : v.dervaCStr (.rva rva) = .ok c) : RefOK v.img c := by
+  rw [cstr_eq_spec] at h
+  obtain ⟨w, n, hat, hc, rfl⟩ := specCStr_ok h
+  obtain ⟨⟨h1, _⟩, _, _⟩ := at_rva_sound v hat
+  have := hc.fits
+  exact ⟨by show w.off + (n + 1) ≤ _; omega, Nat.mod_one _⟩
+
+theorem thunks_refok {v : View} {rva : Nat} {s : Ref}
+    (h : v.dervaSliceS (.rva rva) (vaSize v.fmt) (vaSize v.fmt) 0 = .ok s) :
+    RefOK v.img s ∧ s.align = vaSize v.fmt := by
+  rw [thunks_eq_spec] at h
+  obtain ⟨w, n, hat, hc, rfl⟩ := specThunks_ok h
+  obtain ⟨⟨h1, h2⟩, _, hal⟩ := at_rva_sound v hat
+  have hf := hc.fits
+  rw [Nat.succ_mul] at hf
+  rw [hal] at h2
+  exact ⟨⟨by show w.off + n * vaSize v.fmt ≤ _; omega, h2⟩, rfl⟩
+
+theorem bind_eq_ok {α β} {x : Out α} {f : α → Out β} {b : β} :
+    (x >>= f) = .ok b ↔ ∃ a, x = .ok a ∧ f a = .ok b := by
+  cases x with
+  | ok a => simp
+  | _ => simp
+
+theorem import_name_refok {v : View} {va h : Nat} {nm : Ref}
+    (hi : importFromVa v va = .ok (.byName h nm)) : RefOK v.img nm := by
+  unfold importFromVa at hi
+  split at hi
+  · obtain ⟨hint, _, hi⟩ := bind_eq_ok.1 hi
+    obtain ⟨rva2, _, hi⟩ := bind_eq_ok.1 hi
+    obtain ⟨name, hn, hi⟩ := bind_eq_ok.1 hi
+    cases hi
+    exact cstr_refok hn
+  · cases hi
+
 end Pelite.Imports
